@@ -479,26 +479,26 @@ func c12(c *an.Ctx) {
 			full := an.RelPkg(fn) + "." + an.QualName(fn)
 			for _, r := range an.FieldRefs(fn, sgPath(), "DB", "Conn") {
 				o.Site(r.Instr)
-				if _, ok := allowConn[full]; !ok {
+				if !p.AllowedFunc(fn, func(f *ssa.Function) bool { _, ok := allowConn[an.RelPkg(f)+"."+an.QualName(f)]; return ok }) {
 					o.FailAt(r.Instr, "%s uses DB.Conn directly: statements sent this way bypass the shard-limit checks", full)
 				}
 			}
 			for _, i := range an.CallsAny(fn, an.Mod(sg, "DB", "QueryExecer")) {
 				o.Site(i)
-				if _, ok := allowExecer[full]; !ok {
+				if !p.AllowedFunc(fn, func(f *ssa.Function) bool { _, ok := allowExecer[an.RelPkg(f)+"."+an.QualName(f)]; return ok }) {
 					o.FailAt(i, "%s obtains the raw QueryExecer: statements sent this way bypass the shard-limit checks", full)
 				}
 			}
 			for _, r := range an.FieldRefs(fn, sgPath(), "DB", "batchFetch") {
 				o.Site(r.Instr)
-				if _, ok := allowBatch[full]; !ok {
+				if !p.AllowedFunc(fn, func(f *ssa.Function) bool { _, ok := allowBatch[an.RelPkg(f)+"."+an.QualName(f)]; return ok }) {
 					o.FailAt(r.Instr, "%s uses DB.batchFetch", full)
 				}
 			}
 			for _, f := range []string{"shardLimit", "dynamicLimit"} {
 				for _, r := range an.FieldRefs(fn, sgPath(), "DB", f) {
 					o.Site(r.Instr)
-					_, listed := allowLimit[full]
+					listed := p.AllowedFunc(fn, func(f *ssa.Function) bool { _, ok := allowLimit[an.RelPkg(f)+"."+an.QualName(f)]; return ok })
 					switch {
 					case (r.Kind == "load" || (r.Kind == "addr" && onlyReadThrough(r.Instr))) && an.RelPkg(fn) == sg:
 						// reading the limit inside the package is harmless
